@@ -14,6 +14,5 @@ SPEC = {
     ],
     "stated_not_proved": [
         "roundtrip for INHERITED members (map_member (swap_b R) I' (map_class c) (map_member R I c k) = k with I' = JarSuperProv::remap I): not proved; it needs an extra hypothesis beyond tables_inj — no type earlier in the pre-order may declare, under another source key, the same target key (Sub.m -> n and Base.p -> n with Sub extends Base: Sub.p -> n -> m) — and injectivity of map_class on the provider's keys",
-        "map_desc characterisation of failure on arbitrary strings (Err iff some `L` is followed by `;`, by nothing, or by no later `;`) is proved only as the three one-step lemmas map_desc_L_end/map_desc_L_semi/map_desc_L_open plus heredity (Theory1), not as one iff",
     ],
 }
